@@ -42,10 +42,40 @@ class Tr:
                 and isinstance(e.args[0], ast.Constant) and e.args[0].value in ("inf", "Inf", "infinity"))
 
     offline = False            # True while translating the offline visitor (node / args / self.ast accessors allowed)
+    interp = False             # True while translating methods of DiscreteTimeInterpreter (exact unit arithmetic)
+
+    def interp_expr(self, e):
+        t = src(e)
+        special = {"node.begin": "$begin", "node.end": "$end", "node.begin_unit": "$bunit", "node.end_unit": "$eunit",
+                   "self.ast.unit": "$unit"}
+        if t in special:
+            return "(.loc %s)" % q(special[t])
+        if isinstance(e, ast.Subscript) and src(e.value) == "self.ast.U":
+            return "(.un .unitNs %s)" % self.expr(e.slice)
+        if isinstance(e, ast.Call) and isinstance(e.func, ast.Name) and len(e.args) == 1 and not e.keywords:
+            if e.func.id == "Fraction":
+                return "(.un .frac %s)" % self.expr(e.args[0])
+            if e.func.id == "int":
+                return "(.un .toInt %s)" % self.expr(e.args[0])
+            if e.func.id == "len":
+                return "(.len %s)" % self.expr(e.args[0])
+        if isinstance(e, ast.Attribute) and e.attr in ("numerator", "denominator") and isinstance(e.value, ast.Name):
+            return "(.un .%s (.loc %s))" % ("numer" if e.attr == "numerator" else "denom", q(e.value.id))
+        if isinstance(e, ast.BinOp) and isinstance(e.op, ast.Mod):
+            return "(.bin .mod %s %s)" % (self.expr(e.left), self.expr(e.right))
+        if isinstance(e, ast.Tuple) and len(e.elts) == 2:
+            return "(.tuple %s %s)" % (self.expr(e.elts[0]), self.expr(e.elts[1]))
+        return None
 
     def expr(self, e):
+        if self.interp:
+            r = self.interp_expr(e)
+            if r is not None:
+                return r
         if self.offline:
             t = src(e)
+            if self.horizon and t in ("node.end", "node.begin"):
+                return "(.loc %s)" % q("$" + t[5:])
             special = {"args[0]": "$length", "self.ast.var_object_dict[node.var]": "$var", "node.field": "$field",
                        "node.operator.value": "$operator", "node.operator": "$operator", "node.val": "$val"}
             if t in special:
@@ -187,7 +217,11 @@ class Tr:
     def block(self, stmts, depth):
         return self.seq([self.stmt(s, depth) for s in stmts])
 
+    horizon = False
+
     def stmt(self, s, depth):
+        if self.horizon and isinstance(s, ast.Assign) and len(s.targets) == 1 and src(s.targets[0]) == "self.horizons[node]":
+            return ".skip"                       # the table of sub-formula horizons is not part of the value computed
         if self.offline:
             r = self.list_stmt(s, depth)
             if r is not None:
@@ -347,6 +381,186 @@ def generate_offline():
     return "\n".join(lines) + "\n"
 
 
+HOR_FILES = ["rtamt/pastifier/stl/horizon.py", "rtamt/pastifier/ltl/horizon.py"]      # StlHorizon first: it overrides LtlHorizon
+OUT_HOR = os.path.join(os.path.dirname(HERE), "lean", "Rtamt", "Py", "GeneratedHorizon.lean")
+
+
+def generate_horizon():
+    """The visit methods of StlHorizon / LtlHorizon (horizon of a specification, computed before pastify()).  The children's
+    horizons are the parameters (as for the offline visitor); `self.horizons[node] = x` (a table the pastifier reads
+    later) is dropped; `node.end` becomes the local `$end`."""
+    seen, lines, names = set(), [], []
+    lines = ["/- GENERATED by harness/py2lean.py from %s of /repo on every run - do not edit. -/" % " and ".join(HOR_FILES),
+             "import Rtamt.Py.Off", "", "namespace Rtamt.Py.Gen.Hor", "open Rtamt Rtamt.Py", ""]
+    for fn in HOR_FILES:
+        tree = ast.parse(open(os.path.join(REPO, fn)).read())
+        for cls in [n for n in tree.body if isinstance(n, ast.ClassDef)]:
+            tr = Tr(cls)
+            tr.offline = True
+            tr.horizon = True
+            for m in cls.body:
+                if isinstance(m, ast.FunctionDef) and m.name.startswith("visit") and m.name not in ("visit", "visitDefault") \
+                        and m.name not in seen:
+                    t = offline_method(tr, m)
+                    if t is None:
+                        continue
+                    seen.add(m.name)
+                    lines.append("/-- `%s.%s` -/" % (cls.name, m.name))
+                    lines.append("def %s : OffMethod :=\n  %s" % (m.name, t))
+                    lines.append("")
+                    names.append(m.name)
+    lines.append("def methods : List (String × OffMethod) := [%s]" % ", ".join("(%s, %s)" % (q(n), n) for n in names))
+    lines.append("")
+    lines.append("end Rtamt.Py.Gen.Hor")
+    return "\n".join(lines) + "\n"
+
+
+PAST_FILE = "rtamt/pastifier/stl/pastifier.py"
+OUT_PAST = os.path.join(os.path.dirname(HERE), "lean", "Rtamt", "Py", "GeneratedPast.lean")
+
+
+class PastTr:
+    """Translator of the visit methods of StlPastifier into the sub-language of `Rtamt/Py/Past.lean`."""
+
+    def __init__(self):
+        self.node_reassigned = False
+
+    def expr(self, e):
+        t = src(e)
+        if t == "args[0]":
+            return '(.loc "$horizon")'
+        if t == "self.subformula_horizons[node]":
+            return '(.loc "$node_horizon")'
+        if t in ("node.begin", "node.end", "node.operator"):
+            if self.node_reassigned:
+                return "(.unsupported %s)" % q(t + " after node was re-assigned")
+            return "(.loc %s)" % q("$" + t[5:])
+        if isinstance(e, ast.Constant) and isinstance(e.value, int) and not isinstance(e.value, bool):
+            return "(.int %d)" % e.value
+        if isinstance(e, ast.Name):
+            return "(.loc %s)" % q(e.id)
+        if isinstance(e, ast.BinOp) and isinstance(e.op, (ast.Add, ast.Sub)):
+            return "(.%s %s %s)" % ("add" if isinstance(e.op, ast.Add) else "sub", self.expr(e.left), self.expr(e.right))
+        if isinstance(e, ast.Compare) and len(e.ops) == 1 and isinstance(e.ops[0], ast.Gt):
+            return "(.gt %s %s)" % (self.expr(e.left), self.expr(e.comparators[0]))
+        if isinstance(e, ast.Call) and not e.keywords:
+            f = src(e.func)
+            a = e.args
+            if f == "self.visit" and len(a) == 2 and isinstance(a[0], ast.Subscript) and src(a[0].value) == "node.children" \
+                    and isinstance(a[0].slice, ast.Constant) and isinstance(a[0].slice.value, int) and not self.node_reassigned:
+                return "(.visit %d %s)" % (a[0].slice.value, self.expr(a[1]))
+            if f == "Interval" and len(a) == 2:
+                return "(.interval %s %s)" % (self.expr(a[0]), self.expr(a[1]))
+            if (f == "Variable" and [src(x) for x in a] == ["node.var", "node.field", "node.io_type"]) or \
+                    (f == "Constant" and [src(x) for x in a] == ["node.val"]):
+                return ".selfLeaf" if not self.node_reassigned else "(.unsupported %s)" % q(t)
+            if isinstance(e.func, ast.Name) and f[:1].isupper() and 1 <= len(a) <= 3:
+                return "(.mk%d %s %s)" % (len(a), q(f), " ".join(self.expr(x) for x in a))
+        return "(.unsupported %s)" % q(t)
+
+    def seq(self, items):
+        items = [i for i in items if i != ".skip"]
+        if not items:
+            return ".skip"
+        out = items[-1]
+        for i in reversed(items[:-1]):
+            out = "(.seq %s %s)" % (i, out)
+        return out
+
+    def block(self, stmts):
+        return self.seq([self.stmt(x) for x in stmts])
+
+    def stmt(self, st):
+        if isinstance(st, ast.Pass):
+            return ".skip"
+        if isinstance(st, ast.Assign) and len(st.targets) == 1 and isinstance(st.targets[0], ast.Name):
+            r = "(.setLoc %s %s)" % (q(st.targets[0].id), self.expr(st.value))
+            if st.targets[0].id == "node":
+                self.node_reassigned = True
+            return r
+        if isinstance(st, ast.If):
+            c = self.expr(st.test)
+            before = self.node_reassigned
+            t = self.block(st.body)
+            after_t = self.node_reassigned
+            self.node_reassigned = before
+            e = self.block(st.orelse)
+            self.node_reassigned = self.node_reassigned or after_t
+            return "(.ite %s %s %s)" % (c, t, e)
+        if isinstance(st, ast.For) and not st.orelse and isinstance(st.target, ast.Name) and isinstance(st.iter, ast.Call) \
+                and src(st.iter.func) == "range" and len(st.iter.args) == 1 and not st.iter.keywords:
+            n = self.expr(st.iter.args[0])
+            return "(.forRange %s %s %s)" % (q(st.target.id), n, self.block(st.body))
+        if isinstance(st, ast.Raise) and isinstance(st.exc, ast.Call) and isinstance(st.exc.func, ast.Name):
+            return "(.raise .rtamt)" if st.exc.func.id == "RTAMTException" else "(.raise .other)"
+        return "(.unsupported %s)" % q(src(st))
+
+
+def generate_past():
+    tree = ast.parse(open(os.path.join(REPO, PAST_FILE)).read())
+    cls = [n for n in tree.body if isinstance(n, ast.ClassDef) and n.name == "StlPastifier"][0]
+    last = {}
+    for m in cls.body:                      # a name defined twice in the class body: the last definition is the method
+        if isinstance(m, ast.FunctionDef):
+            last[m.name] = m
+    lines = ["/- GENERATED by harness/py2lean.py from %s of /repo on every run - do not edit. -/" % PAST_FILE,
+             "import Rtamt.Py.Past", "", "namespace Rtamt.Py.Gen.Past", "open Rtamt Rtamt.Py", ""]
+    names = []
+    for name, m in last.items():
+        if not name.startswith("visit") or name in ("visit", "visitDefault"):
+            continue
+        a = m.args
+        if [x.arg for x in a.args] != ["self", "node"]:
+            continue
+        tr = PastTr()
+        body = list(m.body)
+        ret = "none"
+        if body and isinstance(body[-1], ast.Return) and body[-1].value is not None:
+            r = body.pop()
+            btxt = tr.block(body)
+            ret = "(some %s)" % tr.expr(r.value)
+        else:
+            btxt = tr.block(body)
+        if any(isinstance(x, ast.Return) for st in body for x in ast.walk(st)):
+            btxt = "(.unsupported %s)" % q("return inside " + name)
+        lines.append("def %s : PMethod :=\n  { name := %s, body := %s, ret := %s }" % (name, q(name), btxt, ret))
+        lines.append("")
+        names.append(name)
+    lines.append("def methods : List (String × PMethod) := [%s]" % ", ".join("(%s, %s)" % (q(n), n) for n in names))
+    lines.append("")
+    lines.append("end Rtamt.Py.Gen.Past")
+    return "\n".join(lines) + "\n"
+
+
+INTERP_FILE = "rtamt/semantics/discrete_time_interpreter.py"
+OUT_UNITS = os.path.join(os.path.dirname(HERE), "lean", "Rtamt", "Py", "GeneratedUnits.lean")
+
+
+def generate_units():
+    """`DiscreteTimeInterpreter.time_unit_transformer` (bounds -> samples) and `update_sampling_violation_counter`."""
+    tree = ast.parse(open(os.path.join(REPO, INTERP_FILE)).read())
+    cls = [n for n in tree.body if isinstance(n, ast.ClassDef) and n.name == "DiscreteTimeInterpreter"][0]
+    tr = Tr(cls)
+    tr.interp = True
+    lines = ["/- GENERATED by harness/py2lean.py from %s of /repo on every run - do not edit. -/" % INTERP_FILE,
+             "import Rtamt.Py.Sem", "", "namespace Rtamt.Py.Gen.Units", "open Rtamt Rtamt.Py", ""]
+    want = {"time_unit_transformer": ["$begin", "$end", "$bunit", "$eunit", "$unit"], "update_sampling_violation_counter": None}
+    for name, params in want.items():
+        m = tr.methods.get(name)
+        if m is None:
+            lines.append("def %s : Method := { params := [], body := .unsupported \"missing method\", ret := none }" % name)
+            continue
+        t = tr.method(name)
+        if params is not None:
+            # the node attributes and the default unit the method reads are passed as arguments
+            t = t.replace("params := [%s]" % ", ".join(q(x.arg) for x in m.args.args[1:]), "params := [%s]" % ", ".join(q(x) for x in params), 1)
+        lines.append("/-- `DiscreteTimeInterpreter.%s` -/" % name)
+        lines.append("def %s : Method :=\n  %s" % (name, t))
+        lines.append("")
+    lines.append("end Rtamt.Py.Gen.Units")
+    return "\n".join(lines) + "\n"
+
+
 def write_if_changed(path, txt):
     old = open(path).read() if os.path.exists(path) else None
     if txt != old:
@@ -357,6 +571,9 @@ def write_if_changed(path, txt):
 
 def main():
     write_if_changed(OUT_OFF, generate_offline())
+    write_if_changed(OUT_UNITS, generate_units())
+    write_if_changed(OUT_HOR, generate_horizon())
+    write_if_changed(OUT_PAST, generate_past())
     txt = generate()
     old = open(OUT).read() if os.path.exists(OUT) else None
     if txt != old:
